@@ -2826,6 +2826,9 @@ class StateEngine(object):
             except IntrinsicFailure as e:
                 handle_error(state, "States.IntrinsicFailure", str(e))
                 self.event_dispatcher.acknowledge(id)
+            except ResultPathMatchFailure as e:  # Parallel state with no branches
+                handle_error(state, "States.ResultPathMatchFailure", str(e))
+                self.event_dispatcher.acknowledge(id)
             except PathMatchFailure as e:
                 handle_error(state, "States.Runtime", str(e))
                 self.event_dispatcher.acknowledge(id)
